@@ -512,6 +512,12 @@ def run(ctx):
     n_or = (24000 if quick else 500000) * mult
     names = sorted(ORACLE_MODELS)
     olines = []
+    if vlib.os.path.isdir(corpus):      # replays of past findings first (corpus/C04/*.xops)
+        for fn in sorted(vlib.os.listdir(corpus)):
+            if fn.endswith(".xops"):
+                olines += [l.rstrip("\n") for l in open(vlib.os.path.join(corpus, fn))
+                           if l.startswith("x ") and l.split()[1] in ORACLE_MODELS]
+    n_xcorpus = len(olines)
     for i in range(n_or):
         name = names[i % len(names)] if i < 4 * len(names) else rng.choice(names)
         olines.append(gen_oracle_line(rng, name, scripted=rng.chance(1, 3)))
@@ -583,7 +589,7 @@ def run(ctx):
                 "uniforms; non-trivial = answered neither bad-op nor script-exhausted; distinct = "
                 "distinct op lines",
         "op_mix": dict(sorted(kinds.items())), "outcome_mix": dict(sorted(outcome_mix.items())),
-        "oracle_cases": len(olines) + n_rot, "oracle_failures": n_fail,
+        "oracle_cases": len(olines) + n_rot, "oracle_corpus_ops": n_xcorpus, "oracle_failures": n_fail,
         "oracle_outcomes": dict(sorted(omix.items())), "max_draws_seen": {k: v[0] for k, v in sorted(max_draws.items())},
         "max_draws_ops": {k: v[1] for k, v in sorted(max_draws.items()) if v[1]},
         "diverging_ops": len(diverged), "samples": lines[1:4] + olines[:2],
